@@ -237,7 +237,7 @@ def plan (s : Store) : Op → Res × List W
     `none` = the call is made -/
 def callerGuard (s : Store) : Op → Option String
   | .trunc ch to => if (curCkpt s ch).2.2.2 ∧ to < hwOf s ch then some "guard:below-hw" else none
-  | .adopt ch through => if through > hwOf s ch then some "guard:above-hw" else none
+  | .adopt ch through => if ch = exactCh ∧ through > hwOf s ch then some "guard:above-hw" else none
   | .ckpt ch hw => if hw > leo s ch then some "guard:above-leo" else none
   | _ => none
 
